@@ -46,9 +46,24 @@ def _components_under(bp):
                 yield it[1]
 
 
+def uses_type(spec, m, x, t):
+    """Does the call graph of component x mention type t: an input of x, of a constructor x (transitively) needs, or of an
+    error handler for an error that x or one of those constructors may return?"""
+    base = lambda tt: tt.split("<")[0]
+    comp = m.comp(x)[1]
+    clo = m.closure(x)
+    if any(base(tt) == t for (tt, _m) in comp.get("ins", [])) or any(base(tt) == t for (_c, tt) in clo):
+        return True
+    errs = set(e for e in [comp.get("fallible")] + [spec["ctors"][c].get("fallible") for (c, _t) in clo] if e)
+    for eh in spec["ehs"].values():
+        if (eh["err"] in errs or (eh["err"] == "pavex" and errs)) and any(base(tt) == t for (tt, _m) in eh.get("ins", [])):
+            return True
+    return False
+
+
 def request_scoped_override_with_inherited_mws(spec, m):
     def uses(x, t):
-        return any(tt.split("<")[0] == t for (_c, tt) in m.closure(x)) or any(tt.split("<")[0] == t for (tt, _m) in m.comp(x)[1].get("ins", []))
+        return uses_type(spec, m, x, t)
 
     def walk(bp, mws_here):
         mws_here = list(mws_here)
@@ -59,8 +74,7 @@ def request_scoped_override_with_inherited_mws(spec, m):
                 for cit in it[2]["items"]:
                     if cit[0] == "ctor" and spec["ctors"][cit[1]]["lc"] == "request":
                         t = spec["ctors"][cit[1]]["out"].split("<")[0]
-                        users = [x for x in mws_here if any(tt.split("<")[0] == t for (_c, tt) in m.closure(x))
-                                 or any(tt.split("<")[0] == t for (tt, _m) in m.comp(x)[1].get("ins", []))]
+                        users = [x for x in mws_here if uses(x, t)]
                         # (an observer is spliced into the graph of every fallible component of the pipeline)
                         if len(users) >= 2 or any(x in spec["obs"] for x in users):
                             return True
@@ -72,6 +86,39 @@ def request_scoped_override_with_inherited_mws(spec, m):
                     return True
         return False
     return walk(spec["bp"], [])
+
+
+def _reach(spec, ins):
+    """(type, mode) pairs met when walking the inputs of a component and of every constructor registered for the types
+    it needs (any scope)."""
+    base = lambda t: t.split("<")[0]
+    out, seen, stack = [], set(), list(ins)
+    while stack:
+        t, mode = stack.pop()
+        out.append((base(t), mode))
+        if base(t) in seen:
+            continue
+        seen.add(base(t))
+        for c in spec["ctors"].values():
+            if base(c["out"]) == base(t):
+                stack += [(u, mo) for (u, mo) in c["ins"]]
+    return out
+
+
+def value_moved_for_error_handler_and_borrowed_by_observer(spec, m):
+    """A non-Copy value is taken by value somewhere in the dependency chain of an error handler while an error observer
+    (which runs after the handler) borrows it: the clone that is needed is not inserted (`complex_borrow_check` lets the
+    observer release its borrow before the handler's dependencies are built, the ordering pass cannot)."""
+    moved = set()
+    for eh in spec["ehs"].values():
+        moved |= set(t for (t, mode) in _reach(spec, eh.get("ins", [])) if mode == "val")
+    moved = set(t for t in moved if t in spec["types"] and not spec["types"][t].get("copy"))
+    if not moved:
+        return False
+    for o in spec["obs"].values():
+        if any(t in moved for (t, _mode) in _reach(spec, o.get("ins", []))):
+            return True
+    return False
 
 
 def request_scoped_override_below_inherited_wrap(spec, m):
@@ -152,7 +199,7 @@ KNOWN_PANIC_PATTERNS = [
     ("compiler/codegen_utils.rs", "There is no variable with type", "singleton_by_value_into_generic_constructor", singleton_by_value_into_generic_constructor),
     ("processing_pipeline/codegen.rs", "Could not find a binding for input type", "generic_argument_without_constructor", generic_argument_without_constructor),
     ("call_graph/codegen.rs", "did not visit all nodes", "fallible_mw_graph_and_observers", fallible_mw_graph_and_observers),
-    ("borrow_checker/assign_order.rs", "node ordering is stuck", "cin_value_moved_into_constructor", cin_value_moved_into_constructor),
+    ("borrow_checker/assign_order.rs", "node ordering is stuck", "value_moved_for_error_handler_and_borrowed_by_observer", value_moved_for_error_handler_and_borrowed_by_observer),
     ("processing_pipeline/pipeline.rs", "invoked at most once", "request_scoped_override_with_inherited_mws", request_scoped_override_with_inherited_mws),
     ("user_components/router.rs", "All other domain guard errors", "guard_param_name_with_comment", guard_param_name_with_comment),
     ("user_components/router.rs", "entered unreachable code", "prefix_trailing_param_with_fallback", prefix_trailing_param_with_fallback),
